@@ -101,7 +101,7 @@ def run_many(binary, cases, root, workers=12, timeout_s=TIMEOUT_S, tag=""):
                 return
             c = cases[i]
             d = os.path.join(root, "%s_%d_%s" % (tag, i, hashlib.sha1(("%s/%s" % (c["family"], c["param"])).encode()).hexdigest()[:8]))
-            results[i] = run_one(binary, c, d, timeout_s=timeout_s)
+            results[i] = run_one(c.get("binary") or binary, c, d, timeout_s=timeout_s)
 
     ths = [threading.Thread(target=work) for _ in range(workers)]
     for t in ths:
